@@ -27,10 +27,11 @@ from vf.core import Outcome, h12
 PROPERTY = "C09"
 
 #: The supported fragment = what the generator emits.  It was widened construct by construct, in this order, while the
-#: tree stayed green; see META["rule"] for what is demanded per construct.  "recursion-joined" (pre-call local of a
-#: recursive helper assigned in both arms of an if/else) is implemented but NOT part of the fragment: HEAD fails it.
+#: tree stayed green; see META["rule"] for what is demanded per construct.  "recursion-joined" (a quarter of the recursive
+#: helpers: pre-call local assigned in both arms of an if/else, unrestricted body) exercises the known finding
+#: C09/recursion-frame-blind-local-uses; its failures carry the signature suffix `|recursion-multi-def`.
 FEATURES = ("arith", "if", "while", "call", "nested-call", "global", "attr", "alias", "obj-param", "early-return", "list",
-            "computed-index", "list-param", "joined-if", "branchy-helper", "recursion")
+            "computed-index", "list-param", "joined-if", "branchy-helper", "recursion", "recursion-joined")
 
 META = {
     "title": "Dynamic slices are sound and checked lines were executed",
@@ -49,9 +50,10 @@ META = {
             "also from the caller's last top-level block, so that basic-block indices of nested callee blocks coincide with "
             "top-level caller blocks; fuel-bounded self-recursive helpers hK(a0, a1) (guard `if a1 <= 0: return`, then a fresh "
             "local defined before `vR = hK(e, a1 - 1)` and used after it; besides that only straight-line assignments to fresh "
-            "locals, calls to other helpers allowed; entry fuel (e) % 3, depth <= 3; NOT in the fragment: "
-            "a local of a recursive helper assigned on different lines in different frames - HEAD resolves an outer frame's use by "
-            "an inner frame's definition, see replays/C09/observed-recursion-different-definition-lines.json)}, rendered one statement per "
+            "locals, calls to other helpers allowed; entry fuel (e) % 3, depth <= 3; a quarter of the recursive helpers instead assign the "
+            "pre-call local in both arms of an if/else and have unrestricted bodies: a missing line inside a recursive helper "
+            "that assigns some local on more than one line gets the signature suffix |recursion-multi-def = known finding "
+            "recursion-frame-blind-local-uses)}, rendered one statement per "
             "line, + two int arguments of "
             "`var_0 = sut.f(a0, a1)`; mode statement (criterion = store of var_0) or assertion (`assert var_0 == value` sliced as well). "
             "Oracles per case: (1) every checked line was executed (sys.monitoring, instruction-level upper bracket, import included); "
@@ -307,7 +309,8 @@ def _recursive_helper(draw, feats: frozenset[str], callable_kinds: list[str], k:
     different frames (not part of the default fragment: HEAD resolves a use to a definition of an inner frame).
     """
     g = _Gen(draw, feats, callable_kinds, "int")
-    g.single_def = "recursion-joined" not in feats
+    multi = "recursion-joined" in feats and g.pick(4) == 0  # modest rate: exercises the known finding
+    g.single_def = not multi
     body = g.block(g.pick(3), 0)
     # mostly keep the earlier locals out of the base value and of the argument, so that only the use *after* the
     # recursive call needs the definition of vP
@@ -318,7 +321,7 @@ def _recursive_helper(draw, feats: frozenset[str], callable_kinds: list[str], k:
     arg = g.expr(1)
     g.ints = visible
     body.append(["if", ["cmp", "<=", ["v", "a1"], ["c", 0]], [["ret", base]], []])
-    if "recursion-joined" in feats and g.pick(2):
+    if multi:
         body.append(g.joined_if(g.cond(), 0))
         pre = body[-1][2][-1][1]
     else:
@@ -394,6 +397,34 @@ def strategy(ctx) -> st.SearchStrategy:
 # --------------------------------------------------------------------------------------------------
 # the forked child: ground truth, oracle, real pipeline
 # --------------------------------------------------------------------------------------------------
+def multi_def_recursive_ranges(model: dict[str, Any], lay: dict[str, Any]) -> list[list[int]]:
+    """[first line, last line] of every recursive helper that assigns some local on more than one line."""
+
+    def assigned(stmts: list[dict[str, Any]], acc: dict[str, set[int]]) -> int:
+        last = 0
+        for s in stmts:
+            k = s["k"]
+            last = max(last, s["line"])
+            if k in ("set", "new", "newlist", "alias"):
+                acc.setdefault(s["name"], set()).add(s["line"])
+            elif k == "if":
+                last = max(last, assigned(s["then"], acc), assigned(s["else"], acc))
+            elif k == "while":
+                acc.setdefault(s["counter"], set()).update((s["init"], s["inc"]))
+                last = max(last, s["inc"], assigned(s["body"], acc))
+        return last
+
+    out = []
+    for h, fn in zip(model["helpers"], lay["helpers"]):
+        if h.get("kind") != "rec":
+            continue
+        acc: dict[str, set[int]] = {}
+        last = assigned(fn["body"], acc)
+        if any(len(lines) > 1 for lines in acc.values()):
+            out.append([fn["def_line"], last])
+    return out
+
+
 class HarnessError(RuntimeError):
     """Model, renderer, interpreter and CPython disagree — a bug of this check, never a verdict."""
 
@@ -473,6 +504,7 @@ def _child(case: dict[str, Any]) -> dict[str, Any]:
             raise HarnessError(f"interpreter executed {oracle['executed']}, LINE events {truth['lo']}\n{lay['source']}")
         res: dict[str, Any] = {"oracle": {k: oracle[k] for k in ("value", "deps", "executed", "stats", "instances")},
                                "first_missing": {}, "hi": truth["hi"], "n_lines": lay["n_lines"], "fails": [],
+                               "multi_def_ranges": multi_def_recursive_ranges(model, lay),
                                "body_lines": sorted(l for l, k in oracle["kinds"].items()
                                                     if k not in ("class", "def", "global"))}
 
@@ -673,9 +705,14 @@ def _analyse(case: dict[str, Any], res: dict[str, Any], out: Outcome) -> None:
         # one bucket per (dependence type, kind of the missing statement); the pipeline is part of the bucket only
         # when the pipelines disagree (e.g. only the observer's criterion is off)
         where = "" if sorted(whats) == pipelines else "only-" + "+".join(sorted(whats)) + "|"
-        out.fail(f"unsound|{where}{typ}|{kind}",
+        # known finding recursion-frame-blind-local-uses: uses are keyed by (name, code object), so the use of an outer
+        # frame is resolved (and removed) by a definition in an inner frame of the same recursive function
+        suffix = "|recursion-multi-def" if any(lo <= line <= hi_ for lo, hi_ in res.get("multi_def_ranges", [])) else ""
+        out.fail(f"unsound|{where}{typ}|{kind}{suffix}",
                  f"line {line} ({kind}) is a {typ} dependence of the returned value but not in the checked lines of "
                  f"{sorted(whats)}; oracle={sorted(deps)} checked={res['checked']}\ncase={case}")
+    if res.get("multi_def_ranges"):
+        out.labels.append("class:recursive-helper-with-multi-def-local")
     for typ, kind in sorted({(t, k) for _l, t, k in res.get("strict_missing", [])}):
         out.labels.append(f"observed:base-variable-definition-not-checked({kind})")
     stats = res["oracle"]["stats"]
